@@ -478,7 +478,7 @@ def atc_history(rng):
 
 
 def ext_edit_history(rng):
-    """a print during which the table of deferred codes and the scripts are edited between two episodes"""
+    """a print during which the table of deferred codes and the scripts are edited between two episodes and inside an episode"""
     reg = dict(type='RectangularRegion', id='e1', x1=10.0 + 1.0 / 2048, y1=10.0 + 1.0 / 2048, x2=20.0 + 1.0 / 2048, y2=20.0 + 1.0 / 2048)
     st = rnd_settings(rng)
     st['ext'] = dict(genprog.DEFAULT_EXT)
@@ -490,8 +490,21 @@ def ext_edit_history(rng):
     for episode in range(rng.randint(2, 3)):
         e += 0.5
         evs.append(('cmd', 'G1 X15 Y15 E%.1f' % e))
-        for c in rng.sample(codes, rng.randint(2, 5)):
+        inside = rng.sample(codes, rng.randint(2, 5))
+        for c in inside:
             evs.append(('cmd', c % rng.randint(1, 9) if '%' in c else c))
+        if rng.random() < 0.35:
+            # the table is edited while the tool is still inside the region: the modes of codes that already have an entry pending change
+            # (captured whole under first / last, merged from now on, and the other way round), then the same codes come again
+            st = dict(st)
+            ext = dict(st['ext'])
+            for g in list(ext):
+                if rng.random() < 0.7:
+                    ext[g] = rng.choice(genprog.EXT_MODES)
+            st['ext'] = ext
+            evs.append(('settings', st))
+            for c in inside:
+                evs.append(('cmd', c % rng.randint(1, 9) if '%' in c else c))
         e += 0.5
         evs.append(('cmd', 'G1 X30 Y30 E%.1f' % e))
         if rng.random() < 0.8:
